@@ -22,6 +22,7 @@ package io
 //@   ensures this.obs.wbits >= old(this.obs.wbits)                                                                 #bits-monotone
 //@   ensures old(this.obs.ofailed) ==> this.obs.ofailed
 //@   ensures this.obs.oclosed == old(this.obs.oclosed)
+//@   atreturn res.err == nil && postTransformLength < 4294967296 ==> 1 <= dataSize && dataSize <= 4 && (dataSize == 1 ==> postTransformLength < 256) && (dataSize == 2 ==> postTransformLength < 65536) && (dataSize == 3 ==> postTransformLength < 16777216)     #length-fits-its-field
 //@   ghostdef res.err == nil && *this.processedBlockID == this.currentBlockID ==> this.obs.plain == old(this.obs.plain) + this.blockLength
 //@   ghostdef !(res.err == nil && *this.processedBlockID == this.currentBlockID) ==> this.obs.plain == old(this.obs.plain)
 //@   modifies res.err, *this.processedBlockID, this.blockTransformType, this.blockEntropyType, this.iBuffer.Buf, this.oBuffer.Buf, this.ctx[*], this.listeners[*], this.obs.wbits, this.obs.ofailed, this.obs.tapeV, this.obs.tapeW, this.obs.plain, "A!Int"
